@@ -49,6 +49,9 @@ func init() {
 	gwReg("c11", gw.RunC11)
 	gwReg("c10", gw.RunC10)
 	gwReg("c16", gw.RunC16)
+	gwReg("c05h", gw.RunC05HTTP)
+	gwReg("c06h", gw.RunC06HTTP)
+	gwReg("c14h", gw.RunC14HTTP)
 	register("gw", "smoke", true, func(t *testing.T, r *sim.Run) { gw.PreBubble(); inBubble(t, true, func() { gw.RunSmoke(r) }) })
 	register("rl", "c07", true, func(t *testing.T, r *sim.Run) { inBubble(t, true, func() { rl.RunC07(r) }) })
 	register("rl", "c13", true, func(t *testing.T, r *sim.Run) { inBubble(t, true, func() { rl.RunC13(r) }) })
